@@ -1,10 +1,44 @@
-"""C17 - see DESIGN.md §3; bounded driver vf/rtc/c17_classification.py plus the deductive sections in vf/props/lexeme.py."""
+"""C17 - value classification is total, exclusive and shared by reader and writer.
+Deductive: decoder cascade / Token predicates (pyvc T_dec, vf/props/lexeme.py), allocation-site
+obligations that the writer classifies with the SAME grammar and decoder objects it was
+configured with, regex-language obligations; bounded: vf/rtc/c17_classification.py."""
+import ast
+
+from ..harness import Section, DISCHARGED, FAILED
+from ..pyvc.frame import call_sites
 from ..rtc import c17_classification as drv
 from . import lexeme
 
 
+def token_sites_section():
+    s = Section("token-construction-sites", "frame",
+                rule="every Token(...) built by the encoders / parser / lexer carries the configured grammar and decoder")
+
+    def ob(name, ok, detail=""):
+        s.obl(name, DISCHARGED if ok else FAILED, "frame", detail=str(detail))
+    enc = call_sites("pvl.encoder", {"Token"})
+    for c in enc:
+        kw = {k.arg: ast.unparse(k.value) for k in c[4].keywords}
+        ob(f"pvl.encoder.{c[0]}:Token(...)@{c[2]}:grammar=self.grammar,decoder=self.decoder",
+           kw.get("grammar") == "self.grammar" and kw.get("decoder") == "self.decoder", c[3])
+    ob("pvl.encoder:needs_quotes-builds-a-Token", any(c[0] == "PVLEncoder.needs_quotes" for c in enc), [c[0] for c in enc])
+    par = call_sites("pvl.parser", {"Token"})
+    for c in par:
+        kw = {k.arg: ast.unparse(k.value) for k in c[4].keywords}
+        ob(f"pvl.parser.{c[0]}:Token(...)@{c[2]}:grammar=self.grammar,decoder=self.decoder",
+           kw.get("grammar") == "self.grammar" and kw.get("decoder") == "self.decoder", c[3])
+    lx = [c for c in call_sites("pvl.lexer", {"Token"}) if c[0] == "lexer"]
+    for c in lx:
+        kw = {k.arg: ast.unparse(k.value) for k in c[4].keywords}
+        ob(f"pvl.lexer.lexer:Token(...)@{c[2]}:grammar=g,decoder=d", kw.get("grammar") == "g" and kw.get("decoder") == "d", c[3])
+    ob("pvl.lexer.lexer:yields-Tokens-built-there", bool(lx))
+    s.notes.append("lex_continue builds look-ahead Tokens with grammar=g only (default PVLDecoder for that grammar): "
+                   "numeric look-ahead does not see a custom real_cls; observed, not part of the writer/reader obligation")
+    return s
+
+
 def run(ctx):
-    return lexeme.sections_for("C17", ctx) + drv.sections(ctx)
+    return lexeme.sections_for("C17", ctx) + [token_sites_section()] + drv.sections(ctx)
 
 
 def replay(data):
